@@ -91,6 +91,8 @@ package webtransport
 //@   ensures [C15.sticky2] old(r.c.readErr) != nil ==> r.c.readErr == old(r.c.readErr) && result1 != nil && result0 == 0
 //@   ensures [C15.stored2] old(r.c.readErr) == nil && old(r.c.messageReader) == r && old(r.c.readRemaining) > 0 ==> r.c.readErr == result1
 //@   ensures [C15.short]   old(r.c.messageReader) == r && r.c.readErr == io.EOF ==> r.c.readRemaining == 0 || old(r.c.readErr) == io.EOF
+// a stream that ends inside a frame is reported as the unexpected-end close error, and that error is the one that sticks
+//@   ensures [C15.unexpected] old(r.c.readErr) == nil && old(r.c.messageReader) == r && old(r.c.readRemaining) > 0 && calls((*bufio.Reader).Read) == 1 && ret((*bufio.Reader).Read, 1, 1) == io.EOF && r.c.readRemaining > 0 ==> result1 == errUnexpectedEOF && r.c.readErr == errUnexpectedEOF
 
 //@ func (*messageReader).Close()
 //@   props C15
@@ -280,8 +282,8 @@ package webtransport
 //@   requires pm != nil && frame != nil && backing(pm.data) != nil
 //@   modifies *
 //@   callsite (*Conn).WriteMessage#1
-//@     assert [C14.prep.options,C13.prep.options] $c.isServer == key.isServer && len($c.writeBuf) == defaultWriteBufferSize + maxFrameHeaderSize && $c.stream != nil
-//@     assert [C14.prep.message,C13.prep.message] $messageType == pm.messageType && $data == pm.data
+//@     assert [C14.prep.options,C13.prep.options,C01.prep.options] $c.isServer == key.isServer && len($c.writeBuf) == defaultWriteBufferSize + maxFrameHeaderSize && $c.stream != nil
+//@     assert [C14.prep.message,C13.prep.message,C01.prep.message] $messageType == pm.messageType && $data == pm.data
 //@ func (*Conn).WritePreparedMessage(pm)
 //@   props C13, C14
 //@   requires c != nil && pm != nil && pm.frames != nil
